@@ -29,7 +29,9 @@ class PI(param.Parameterized):
 
 
 def prog(n: int, k1: int, k2: int, k3: int, same: bool, gap: bool, c1: int, c2: int, c3: int, c4: int, c5: int) -> None:
-    kinds = [pick(k, 0, 2) for k in (k1, k2, k3)][:n]
+    kinds = [pick(k, 0, 3) for k in (k1, k2, k3)][:n]
+    with untraced():
+        sync_srcs = [Src(v=1000), Src(v=1001), Src(v=1002)]
     same = pickbool(same)
     gap = pickbool(gap)
     with untraced():
@@ -72,6 +74,8 @@ def prog(n: int, k1: int, k2: int, k3: int, same: bool, gap: bool, c1: int, c2: 
                     yield await f1
                     yield await f2
                 return ag
+            if kind == 3:
+                return sync_srcs[i].param.v       # a synchronous reference supersedes whatever is pending
             return ('plain', i)
         for i, kind in enumerate(kinds):
             p.x = mk(i, kind)
@@ -103,11 +107,11 @@ def prog(n: int, k1: int, k2: int, k3: int, same: bool, gap: bool, c1: int, c2: 
         loop.close()
     last = kinds[-1]
     li = len(kinds) - 1
-    exp = ('plain', li) if last == 2 else (('res', li, 0) if last == 0 else ('res', li, 1))
+    exp = ('plain', li) if last == 2 else (('res', li, 0) if last == 0 else (('res', li, 1) if last == 1 else 1000 + li))
     info = {'kinds': list(kinds), 'same': same, 'gap': gap, 'x': repr(p.x), 'exp': repr(exp), 'seen': repr(seen)}
     check('C10.plain_cancels' if last == 2 else 'C10.final_latest', p.x == exp, info)
     # once the watcher saw anything belonging to the latest assignment, nothing older may follow
-    idx = [(v[1] if isinstance(v, tuple) and len(v) >= 2 else -1) for v in seen]
+    idx = [(v[1] if isinstance(v, tuple) and len(v) >= 2 else ((v - 1000) if isinstance(v, int) and v >= 1000 else -1)) for v in seen]
     firstlatest = None
     for pos, j in enumerate(idx):
         if j == li and firstlatest is None:
@@ -118,7 +122,7 @@ def prog(n: int, k1: int, k2: int, k3: int, same: bool, gap: bool, c1: int, c2: 
         check('C10.no_stale_after_newer', True)
 
 
-prog.ranges = lambda consts: dict(k1=(0, 2), k2=(0, 2), k3=(0, 2), c1=(0, 5), c2=(0, 5), c3=(0, 5), c4=(0, 5), c5=(0, 5))
+prog.ranges = lambda consts: dict(k1=(0, 3), k2=(0, 3), k3=(0, 3), c1=(0, 5), c2=(0, 5), c3=(0, 5), c4=(0, 5), c5=(0, 5))
 
 
 def typed(o1: int, o2: int, o3: int, o4: int, o5: int, c1: int, c2: int, c3: int, c4: int, c5: int) -> None:
@@ -303,6 +307,67 @@ def rxgen(c1: int, c2: int, c3: int) -> None:
 rxgen.ranges = lambda consts: dict(c1=(0, 2), c2=(0, 2), c3=(0, 2))
 
 
+def rxarg(watch: bool, read_between: bool, c1: int, c2: int, c3: int) -> None:
+    """out = base.rx.pipe(f, arg): the reassigned input is an *argument* of the piped coroutine; pull path (no watcher)
+    or push path; completions in a solver-chosen order."""
+    watch, read_between = pickbool(watch), pickbool(read_between)
+    state = {}
+
+    async def main():
+        loop = asyncio.get_running_loop()
+        gates = []
+
+        async def f(base, v):
+            fu = loop.create_future()
+            gates.append((v, fu))
+            await fu
+            return ('res', base, v)
+        base, arg = rx(100), rx(0)
+        out = base.rx.pipe(f, arg)
+        if watch:
+            out.rx.watch(lambda v: None)
+        out.rx.value
+        for _ in range(8):
+            await asyncio.sleep(0)
+        for v in (1, 2):
+            arg.rx.value = v
+            if read_between:
+                out.rx.value
+            for _ in range(8):
+                await asyncio.sleep(0)
+        for c in (c1, c2, c3):
+            out.rx.value
+            for _ in range(4):
+                await asyncio.sleep(0)
+            pend = [g for g in gates if not g[1].done()]
+            if not pend:
+                break
+            assume(0 <= c < len(pend))
+            c = pick(c, 0, len(pend) - 1)
+            pend[c][1].set_result(None)
+            for _ in range(8):
+                await asyncio.sleep(0)
+        for _ in range(3):        # let whatever is (or becomes) pending run to completion
+            out.rx.value
+            for _ in range(6):
+                await asyncio.sleep(0)
+            for g in gates:
+                if not g[1].done():
+                    g[1].set_result(None)
+            for _ in range(6):
+                await asyncio.sleep(0)
+        state['final'] = out.rx.value
+    loop = asyncio.new_event_loop()
+    try:
+        loop.run_until_complete(main())
+    finally:
+        loop.close()
+    check('C10.rx_latest', state['final'] == ('res', 100, 2), {'final': repr(state['final']), 'watch': watch, 'read_between': read_between})
+
+
+rxarg.ranges = lambda consts: dict(c1=(0, 2), c2=(0, 2), c3=(0, 2))
+
+
 def rxprog(n: int, c1: int, c2: int, c3: int) -> None:
     """src = rx(1); out = src.rx.pipe(slow); n-1 further root updates; completions in a solver-chosen order."""
     state = {}
@@ -361,7 +426,7 @@ def shards(tier):
     out = []
     q = tier == 'quick'
     for n in (2, 3):
-        for k1 in range(3):
+        for k1 in range(4):
             for same in (False, True):
                 c = dict(n=n, k1=k1, same=same)
                 if n < 3:
@@ -374,6 +439,8 @@ def shards(tier):
                             budget_s=60 if q else 300))
     for plain in (False, True):
         out.append(dict(name='deprog_%d' % plain, module='harness.c10', fn='deprog', consts=dict(plain=plain), budget_s=60 if q else 300))
+    for watch in (False, True):
+        out.append(dict(name='rxarg_%d' % watch, module='harness.c10', fn='rxarg', consts=dict(watch=watch), budget_s=60 if q else 300))
     out.append(dict(name='rxgen', module='harness.c10', fn='rxgen', consts={}, budget_s=60 if q else 300))
     for n in (2, 3):
         out.append(dict(name='rx_n%d' % n, module='harness.c10', fn='rxprog', consts=dict(n=n), budget_s=60 if q else 300))
